@@ -112,6 +112,14 @@ def hygiene_scan():
     return bad
 
 
+def consts_status():
+    """which constants of Gen/Consts.v were read from the current source, and which fell back to the pinned value"""
+    try:
+        return json.load(open(os.path.join(ROOT, "build", "consts_status.json")))
+    except (OSError, ValueError):
+        return {"from_source": [], "pinned_fallback": [{"constant": "*", "reason": "no status file"}]}
+
+
 def make_targets(targets, timeout=3000):
     with Lock("coq"):
         rc, out = run([sys.executable, os.path.join(ROOT, "tools", "extract_consts.py")], cwd=ROOT)
@@ -464,6 +472,7 @@ def main():
             "spec_failures_on_impl": len(spec_failures),
             "spec_failures_on_model": model_spec_failures,
             "exhaustive": False,
+            "constants": consts_status(),
         },
         "assumptions": cfg.get("assumptions", []),
         "wall_s": round(wall, 2),
